@@ -377,7 +377,9 @@ func (h *harness) opsCheck(oc *ocase) {
 	if cls(rs) == "loaderr" && cls(ms) == "crash" {
 		rs = "crash"
 	}
-	if rs != ms {
+	if oc.intValsAmbiguous() {
+		c.Stat("sum:tie-skipped(body ambiguous between a signed and an unsigned type)")
+	} else if rs != ms {
 		c.Fail("correspondence", "C09:corr:sum", fmt.Sprintf("real Sum differs from the model: real=%s model=%s for%s", trunc(rs, 300), trunc(ms, 300), trunc(oc.modelObjects(), 300)), oc.replay("ops"))
 	}
 	if o.crashed {
